@@ -311,6 +311,16 @@ func fnMax(args []object.Object) object.Object {
 		return &object.Null{}
 	}
 
+	// Numbers are compared by value.
+	a, aok := numericValue(args[0])
+	b, bok := numericValue(args[1])
+	if aok && bok {
+		if a > b {
+			return args[0]
+		}
+		return args[1]
+	}
+
 	// Create an array.  Yeah.
 	elements := make([]object.Object, 2)
 	elements[0] = args[0]
@@ -327,12 +337,33 @@ func fnMax(args []object.Object) object.Object {
 
 }
 
+// numericValue returns the value of an integer or float object.
+func numericValue(obj object.Object) (float64, bool) {
+	switch v := obj.(type) {
+	case *object.Integer:
+		return float64(v.Value), true
+	case *object.Float:
+		return v.Value, true
+	}
+	return 0, false
+}
+
 // fnMin is the implementation of our `min` function.
 func fnMin(args []object.Object) object.Object {
 
 	// We expect two arguments
 	if len(args) != 2 {
 		return &object.Null{}
+	}
+
+	// Numbers are compared by value.
+	a, aok := numericValue(args[0])
+	b, bok := numericValue(args[1])
+	if aok && bok {
+		if b < a {
+			return args[1]
+		}
+		return args[0]
 	}
 
 	// Create an array.  Yeah.
